@@ -45,6 +45,14 @@ def stream_cells(seed, thorough):
                           hssends=2, bytes=(4 * 1024 * 1024 if thorough else 200 * 1024), rbytes=50000, pauses=400 if thorough else 100,
                           mwq=1024, fault="none", cell=ci, cbsend=0))
         ci += 1
+    # TLS with a read chunk far below the record size: one SSL_read pulls a whole record off the socket, the rest of the record
+    # lives in OpenSSL's buffer with the kernel socket empty (level- and edge-triggered, batching on/off, TLS 1.2/1.3)
+    for j, (et, batch, chunk) in enumerate(((0, 0, 1024), (0, 1, 256), (1, 0, 2048), (0, 0, 2048))):
+        cells.append(dict(tls=1, tlsmax=(13, 12)[(j + seed) % 2], et=et, batch=batch, threads=(1, 4)[j % 2], role=("server", "client")[(j + seed) % 2],
+                          sessions=1, dist=0, permille=(0, 300)[j % 2], iocap=0, peerrcvbuf=16384, sndbuf=4096, rcvbuf=65536, iochunk=chunk,
+                          fin=("half", "app")[j % 2], window=262144, hssends=1, bytes=(2 * 1024 * 1024 if thorough else 100 * 1024),
+                          rbytes=(2 * 1024 * 1024 if thorough else 200 * 1024), pauses=100, mwq=1024, fault="none", cell=ci, cbsend=0, rwmin=8192))
+        ci += 1
     # early-close cells: prefix rule + close reported exactly once
     faults = ("peer-rst", "peer-fin", "app-close", "overflow")
     combos = [(et, batch) for et in (1, 0) for batch in (0, 1)] if thorough else [None]
@@ -69,8 +77,8 @@ def cell_args(c, seed, tmp, stallms, watchdogms):
     if c.get("cbsend"):
         c = dict(c, window=min(c["window"], 65536), iochunk=min(c["iochunk"], 2048))  # workers paced by the peer, so they are still sending while onData fires; small read chunks give many callbacks
     for k in ("tls", "tlsmax", "et", "batch", "threads", "role", "sessions", "dist", "permille", "iocap", "peerrcvbuf", "sndbuf", "rcvbuf",
-              "iochunk", "fin", "window", "hssends", "bytes", "rbytes", "pauses", "mwq", "fault", "cell", "cbsend"):
-        a += ["--" + k, c.get(k, 0) if k == "cbsend" else c[k]]
+              "iochunk", "fin", "window", "hssends", "bytes", "rbytes", "pauses", "mwq", "fault", "cell", "cbsend", "rwmin"):
+        a += ["--" + k, c.get(k, 0) if k in ("cbsend", "rwmin") else c[k]]
     return a
 
 
@@ -217,8 +225,10 @@ def run(ctx):
                 "which the cut actually happened")
     ctx.assumptions = [
         "acceptance order is observed as real-time order: send(X) returned before send(Y) was called implies X precedes Y",
-        "a stall is only reported when accepted bytes are outstanding, the peer is blocked in read on an empty socket, engine bytesOut/bytesIn "
-        "stand still for >= 8 s + 1.5 s, the session is not closed, and the same shape reproduces in an isolated re-run",
+        "a stall is only reported when bytes are outstanding (accepted > received by the peer, or written by the peer > handed to onData), "
+        "all counters and engine bytesOut/bytesIn stand still for >= 8 s + 1.5 s, the session is not closed, the kernel queues on both ends "
+        "locate the bytes inside the engine (tx: engine socket send queue empty, peer blocked in read; rx: unread bytes in the engine's socket, "
+        "or peer send queue and engine receive queue both empty = withheld), and the same shape reproduces in an isolated re-run",
         "in fault-free cells (peer never closes, queue limit never reached) an engine-initiated close is a violation; in fault cells only the "
         "prefix rule and exactly-one close report are required",
         "the independent OpenSSL peer (libssl used directly) is the judge of whether the TLS byte stream is legal",
@@ -226,7 +236,7 @@ def run(ctx):
     ctx.extra["stream_cells_per_flavor"] = len(cells)
     ctx.require_obs("cells", "short_writes", "eagain_on_send", "short_reads", "tls_cells_executed", "multi_threaded_sender_cells",
                     "tls_want_read", "tls_want_write", "sends_accepted_before_tls_handshake", "payloads_verified_at_peer",
-                    "reverse_bytes_on_data", "callback_sender_cells", "callback_sends_on_io_thread", "sessions_closed_early_prefix_checked", "engine_backpressure_closes",
+                    "reverse_bytes_on_data", "callback_sender_cells", "callback_sends_on_io_thread", "tls_level_triggered_cells_with_read_chunk_below_record_size", "sessions_closed_early_prefix_checked", "engine_backpressure_closes",
                     "cut_cases_with_cut", "cut_cases_in_drain_loop", "cut_cases_with_cut_tx_tls", "cut_cases_with_cut_rx_tls",
                     "cut_cases_with_cut_rx_tcp")
     if thorough:
